@@ -1,5 +1,6 @@
 import Nv.Props.C15
 import Nv.Gen.C15
+set_option linter.unusedSimpArgs false
 /-! C15 — obligations on the definitions regenerated from /repo's current source. -/
 namespace Nv.C15
 
@@ -10,16 +11,21 @@ theorem tie_cfg_proved : Proved Nv.Gen.C15.cfg := by decide
 /-- `lochash_in_range`, stated on the regenerated `(*WorkerGrp).locHash`: for every value of `k.HashedInt()`
 and every positive `muxSize` the worker index lies in `[0, muxSize)`. -/
 theorem tie_lochash_in_range : LocOk Nv.Gen.C15.loc := by
-  intro n h hs
-  have hb := srem_bounds h n hs
-  have hn := neg_toInt_of_srem_neg h n hs
+  intro s i hs
+  have hb := srem_bounds i s hs
+  have hn := neg_toInt_of_srem_neg i s hs
+  have hr := BitVec.toInt_srem i s
+  -- the remainder has the sign of the dividend
+  have hsn : i.toInt < 0 → (i.srem s).toInt ≤ 0 := by
+    intro h; rw [hr]
+    have := Int.tmod_nonneg (a := -i.toInt) s.toInt (by omega)
+    rw [Int.neg_tmod] at this; omega
+  have hsp : 0 ≤ i.toInt → 0 ≤ (i.srem s).toInt := by
+    intro h; rw [hr]; exact Int.tmod_nonneg _ h
   unfold Nv.Gen.C15.loc Nv.Gen.C15.workerGrp_locHash
-  simp only []
-  split <;> rename_i hc <;>
-    first
-    | (have hlt : (h.srem n).toInt < 0 := by simpa [BitVec.slt_iff_toInt_lt] using hc
-       omega)
-    | (have hge : 0 ≤ (h.srem n).toInt := by simpa [BitVec.slt_iff_toInt_lt] using hc
-       omega)
+  try simp only []
+  repeat' split
+  all_goals (rename_i hc; simp only [BitVec.slt_iff_toInt_lt, BitVec.toInt_zero, Bool.not_eq_true, decide_eq_true_eq,
+    decide_eq_false_iff_not, Int.not_lt] at hc; omega)
 
 end Nv.C15
